@@ -12,10 +12,14 @@ _t = load_unit('transport')
 NAME = 'transportq'
 TUS = _t.TUS
 PRELUDE = _t.PRELUDE + r'''
+struct vs_opaque vs_timer_entry; int vs_timer_key;
+static inline bool vs_nondet_bool(void) { bool b; return b; }
 /* PollableQueue<WriteEntry> as seen by its single consumer: n entries are waiting */
 struct vs_pq { size_t n; };
 /* ghost: what this drain did */
 size_t g_popped, g_pushed_back, g_dropped, g_arm_calls, g_drain_calls; bool g_last_arm_rw;
+/* ghost: the event being handled is 'socket writable' (a drain was attempted for it) */
+bool g_wr_event;
 '''
 TYPES = dict(_t.TYPES)
 TYPES.update({'Pistache::PollableQueue<Pistache::Tcp::Transport::WriteEntry>': 'struct vs_pq', 'PollableQueue<WriteEntry>': 'struct vs_pq',
@@ -30,8 +34,15 @@ STUBS.update({
     'operator[]|std::unordered_map<int, std::deque<Pistache::Tcp::Transport::WriteEntry>>': {'expr': '(*vs_wmap_index(&($0), $1))'},
     'std::deque<Pistache::Tcp::Transport::WriteEntry>::push_back': {'expr': 'vs_wq_push_back($this, &($0))'},
     'Pistache::Tcp::Transport::asyncWriteImpl': 'vs_asyncWriteImpl_iface',
+    # the other event handlers of onReady: by frame only (they may queue or drain writes of this connection and re-register interest)
+    'Pistache::Tcp::Transport::handleTimerQueue': 'vs_other_handler_iface', 'Pistache::Tcp::Transport::handlePeerQueue': 'vs_other_handler_iface',
+    'Pistache::Tcp::Transport::handleNotify': 'vs_other_handler_iface',
+    'Pistache::Tcp::Transport::handleIncoming': 'vs_other_handler_iface_peer', 'Pistache::Tcp::Transport::handleTimer': 'vs_other_handler_iface_timer',
     'Pistache::Aio::Reactor::modifyFd': {'expr': 'vs_modifyFd_q($2)'},
     'ctor:std::lock_guard<std::mutex>/1': {'expr': '((struct vs_opaque){0})'},
+    'field:std::pair<int, Pistache::Tcp::Transport::TimerEntry>::second': 'vs_timer_entry', 'field:std::pair<int, Pistache::Tcp::Transport::TimerEntry>::first': 'vs_timer_key',
+    # which kind of event an entry is: unconstrained
+    'operator==|Pistache::Polling::Tag,Pistache::Polling::Tag': {'expr': 'vs_nondet_bool()'},
 })
 GUARDED_STUBS = _t.GUARDED_STUBS
 PRELUDE_AFTER_RECORDS = _t.PRELUDE_AFTER_RECORDS + r'''
@@ -51,7 +62,7 @@ static inline struct vs_wq *vs_wmap_index(struct vs_wmap *m, int fd) { (void)fd;
 /* push_back: behind everything already queued (the front element stays the front) */
 static inline void vs_wq_push_back(struct vs_wq *q, const struct Pistache_Tcp_Transport_WriteEntry *e)
 {
-    __CPROVER_assume(q->n < WIRE_MAX - 1);
+    __CPROVER_assert(q->n < WIRE_MAX - 1, "model bound: fewer than 2^32 queued writes");
     if (q->n == 0) q->front = *e;
     q->n++;
     g_pushed_back++;
@@ -62,6 +73,19 @@ static inline void vs_modifyFd_q(int interest)
     g_arm_calls++;
     g_last_arm_rw = (interest & Pistache_Polling_NotifyOn_Write) != 0 && (interest & Pistache_Polling_NotifyOn_Read) != 0;
 }
+/* any other event handler of this transport (timers, new peers, notifications, incoming data with the user's handler behind it): assumed to
+   stay within the transport's per-connection write state as far as this unit's abstraction goes; fewer than 2^31 writes queued */
+#define OTHER_HANDLER_CONTRACT \
+__CPROVER_requires(__CPROVER_rw_ok(this, sizeof(*this)) && __CPROVER_rw_ok(this->toWrite.q, sizeof(*this->toWrite.q))) \
+__CPROVER_assigns(this->toWrite.present, *this->toWrite.q, this->writesQueue.n, g_write_interest, vs_exc) \
+__CPROVER_ensures(this->writesQueue.n < WIRE_MAX && this->toWrite.q->n < WIRE_MAX - this->writesQueue.n && (vs_exc == 0 || VS_EXC_IS_STD(vs_exc))) \
+__CPROVER_ensures((this->toWrite.present && this->toWrite.q->n > 0) ==> we_inv(&this->toWrite.q->front))
+void vs_other_handler_iface(struct Pistache_Tcp_Transport *this)
+OTHER_HANDLER_CONTRACT;
+void vs_other_handler_iface_peer(struct Pistache_Tcp_Transport *this, const struct vs_opaque *peer)
+OTHER_HANDLER_CONTRACT;
+void vs_other_handler_iface_timer(struct Pistache_Tcp_Transport *this, struct vs_opaque entry)
+OTHER_HANDLER_CONTRACT;
 /* asyncWriteImpl(fd) by its frame (proved in unit transport): the per-connection FIFO, the interest registration, ghost counters */
 void vs_asyncWriteImpl_iface(struct Pistache_Tcp_Transport *this, int fd)
 __CPROVER_requires(__CPROVER_rw_ok(this, sizeof(*this)) && __CPROVER_rw_ok(this->toWrite.q, sizeof(*this->toWrite.q)))
@@ -70,32 +94,56 @@ __CPROVER_ensures(g_drain_calls == OLD(g_drain_calls) + 1)
 /* proved there (ensures of Transport::asyncWriteImpl): a drain only takes entries off the queue; it leaves data queued only on would-block,
    and then write interest is armed */
 __CPROVER_ensures(this->toWrite.q->n <= OLD(this->toWrite.q->n))
-__CPROVER_ensures((this->toWrite.present && this->toWrite.q->n > 0) ==> g_write_interest);
+__CPROVER_ensures((this->toWrite.present && this->toWrite.q->n > 0) ==> g_write_interest)
+__CPROVER_ensures((this->toWrite.present && this->toWrite.q->n > 0) ==> we_inv(&this->toWrite.q->front));
 '''
-THROWING = _t.THROWING
-ALWAYS_REPLACE = ['vs_asyncWriteImpl_iface']
+THROWING = _t.THROWING + ['vs_other_handler_iface', 'vs_other_handler_iface_peer', 'vs_other_handler_iface_timer']
+ALWAYS_REPLACE = ['vs_asyncWriteImpl_iface', 'vs_other_handler_iface', 'vs_other_handler_iface_peer', 'vs_other_handler_iface_timer']
 OPAQUE = _t.OPAQUE
 RECORDS = _t.RECORDS
 EXCEPTIONS = _t.EXCEPTIONS
 ENUMS = _t.ENUMS
 RECORD_ALIASES = _t.RECORD_ALIASES
 DEFAULT_RULE = True
-ASSUME_PURE = _t.ASSUME_PURE + ['Pistache::Tcp::Transport::isPeerFd']
-ASSUME_NOTHROW = _t.ASSUME_NOTHROW + ['Pistache::Tcp::Transport::isPeerFd', 'Pistache::Tcp::Transport::reactor']
-ASSUME_PISTACHE = _t.ASSUME_PISTACHE + ['Pistache::Tcp::Transport::isPeerFd', 'Pistache::Tcp::Transport::reactor', 'Pistache::Tcp::Transport::key']
+ASSUME_PURE = _t.ASSUME_PURE + ['Pistache::Tcp::Transport::isPeerFd', 'Pistache::PollableQueue', 'Pistache::Polling::', 'Pistache::NotifyFd', 'Pistache::Tcp::Transport::isTimerFd', 'Pistache::Tcp::Transport::getPeer']
+ASSUME_NOTHROW = _t.ASSUME_NOTHROW + ['Pistache::Tcp::Transport::isPeerFd', 'Pistache::Tcp::Transport::reactor', 'Pistache::PollableQueue', 'Pistache::Polling::', 'Pistache::NotifyFd', 'Pistache::Tcp::Transport::isTimerFd']
+ASSUME_PISTACHE = _t.ASSUME_PISTACHE + ['Pistache::Tcp::Transport::isPeerFd', 'Pistache::Tcp::Transport::reactor', 'Pistache::Tcp::Transport::key',
+                                      'Pistache::PollableQueue', 'Pistache::Polling::', 'Pistache::NotifyFd', 'Pistache::Tcp::Transport::isTimerFd', 'Pistache::Tcp::Transport::getPeer']
 OPAQUE_UNKNOWN = True
 OPAQUE_ANY = True
 DEFAULT_EQ = _t.DEFAULT_EQ
 FUNCTIONS = [
     {'q': 'Pistache::Tcp::Transport::WriteEntry::WriteEntry'},
+    {'q': 'Pistache::Tcp::Transport::onReady', 'hoist_all': True,
+     'ghost': [('vs_asyncWriteImpl_iface', 'before', 'g_wr_event = 1;'),
+               ('Pistache_Tcp_Transport_handleWriteQueue', 'before', 'g_popped = 0; g_pushed_back = 0; g_arm_calls = 0; g_drain_calls = 0;')],
+     'loop_ghost': {0: 'g_wr_event = 0;'},
+     'prologue': 'struct vs_wq *const Q = this->toWrite.q; struct vs_wmap *const M = &this->toWrite;',
+     'contract': """
+        requires FRESH(this, sizeof(*this)) && FRESH(this->toWrite.q, sizeof(*this->toWrite.q)) && FRESH(fds, sizeof(*fds))
+        requires this->writesQueue.n < WIRE_MAX && this->toWrite.q->n < WIRE_MAX - this->writesQueue.n && ((this->toWrite.present && this->toWrite.q->n > 0) ==> we_inv(&this->toWrite.q->front))
+        requires vs_exc == 0 && !g_wr_event
+        assigns this->writesQueue.n, this->toWrite.present, *this->toWrite.q, this->timers, vs_exc, g_popped, g_pushed_back, g_arm_calls, g_drain_calls, g_write_interest, g_last_arm_rw,
+                g_wr_event, vs_pq_slot
+        ensures vs_exc == 0 || VS_EXC_IS_STD(vs_exc)
+        # C07: when the socket of a connection is reported writable, whatever is still queued for it once the event has been handled is
+        # covered by a write-interest registration -- the drain re-arms it on would-block and nothing un-registers it afterwards --
+        # so the connection is neither forgotten (stall) nor polled in a loop
+        ensures (vs_exc == 0 && g_wr_event && this->toWrite.present && this->toWrite.q->n > 0) ==> g_write_interest""",
+     'loops': ["""
+        assigns this->writesQueue.n, this->toWrite.present, *this->toWrite.q, this->timers, vs_exc, g_popped, g_pushed_back, g_arm_calls, g_drain_calls, g_write_interest, g_last_arm_rw,
+                g_wr_event, vs_pq_slot, __begin2, $HOISTED
+        invariant vs_exc == 0 && this->writesQueue.n < WIRE_MAX && Q->n < WIRE_MAX - this->writesQueue.n && ((M->present && Q->n > 0) ==> (Q->front.deferred.valid && BH_INV(&Q->front.buffer)))
+        invariant (g_wr_event && M->present && Q->n > 0) ==> g_write_interest"""]},
     {'q': 'Pistache::Tcp::Transport::handleWriteQueue', 'hoist_all': True, 'contract': """
-        requires FRESH(this, sizeof(*this)) && FRESH(this->toWrite.q, sizeof(*this->toWrite.q)) && this->writesQueue.n < WIRE_MAX && this->toWrite.q->n < WIRE_MAX / 2
+        requires FRESH(this, sizeof(*this)) && FRESH(this->toWrite.q, sizeof(*this->toWrite.q)) && this->writesQueue.n < WIRE_MAX && this->toWrite.q->n < WIRE_MAX - this->writesQueue.n
         requires (this->toWrite.present && this->toWrite.q->n > 0) ==> we_inv(&this->toWrite.q->front)
         requires vs_exc == 0 && g_popped == 0 && g_pushed_back == 0 && g_arm_calls == 0 && g_drain_calls == 0
         assigns this->writesQueue.n, this->toWrite.present, *this->toWrite.q, vs_exc, g_popped, g_pushed_back, g_arm_calls, g_drain_calls, g_write_interest, g_last_arm_rw, vs_pq_slot
         ensures vs_exc == 0
         # C06 (no write is lost on the way): the cross-thread queue is drained completely, whatever is found in it
-        ensures this->writesQueue.n == 0 && g_popped == OLD(this->writesQueue.n)
+        ensures this->writesQueue.n == 0 && g_popped == OLD(this->writesQueue.n) && this->toWrite.q->n <= OLD(this->toWrite.q->n) + g_pushed_back
+        ensures (this->toWrite.present && this->toWrite.q->n > 0) ==> we_inv(&this->toWrite.q->front)
         # every entry for a connected peer goes BEHIND what is already queued for it (exactly one push_back, never to the front), and
         # read+write interest is registered for it each time
         ensures g_pushed_back <= g_popped && g_arm_calls == g_pushed_back && (g_pushed_back > 0 ==> g_last_arm_rw)
@@ -106,10 +154,11 @@ FUNCTIONS = [
         assigns this->writesQueue.n, this->toWrite.present, *this->toWrite.q, vs_exc, g_popped, g_pushed_back, g_arm_calls, g_drain_calls, g_write_interest, g_last_arm_rw, vs_pq_slot, $HOISTED
         invariant vs_exc == 0 && this->writesQueue.n <= LOOP_ENTRY(this->writesQueue.n) && g_popped == LOOP_ENTRY(this->writesQueue.n) - this->writesQueue.n
         invariant g_pushed_back <= g_popped && g_arm_calls == g_pushed_back && (g_pushed_back > 0 ==> g_last_arm_rw) && (flush ? g_drain_calls == g_pushed_back : g_drain_calls == 0)
-        invariant this->toWrite.q->n < WIRE_MAX / 2 + g_pushed_back
+        invariant this->toWrite.q->n <= LOOP_ENTRY(this->toWrite.q->n) + g_pushed_back && ((this->toWrite.present && this->toWrite.q->n > 0) ==> (this->toWrite.q->front.deferred.valid && BH_INV(&this->toWrite.q->front.buffer)))
         invariant (g_pushed_back > 0 && this->toWrite.present && this->toWrite.q->n > 0) ==> g_write_interest
         decreases this->writesQueue.n + 1"""]},
 ]
 PROOFS = [
     {'name': 'handleWriteQueue', 'enforce': 'Pistache_Tcp_Transport_handleWriteQueue', 'loops': 'contracts', 'props': ['C06', 'C07']},
+    {'name': 'onReady', 'enforce': 'Pistache_Tcp_Transport_onReady', 'loops': 'contracts', 'replace': ['Pistache_Tcp_Transport_handleWriteQueue'], 'props': ['C07']},
 ]
